@@ -89,6 +89,37 @@ func c10Gen(rt *rapid.T) wProg {
 	n := gInt(rt, 4, 22, "nops")
 	for i := 0; i < n; i++ {
 		s := gInt(rt, 0, len(p.Sess)-1, "s")
+		switch y := gInt(rt, 0, 99, "hist"); {
+		case y < 4:
+			// everybody leaves the group; while it idles towards unloading a member who is not attached
+			// bans himself with a {sub}; the group must still go offline
+			for k := range p.Sess {
+				p.Ops = append(p.Ops, wOp{K: "leave", S: k, T: "g0"})
+			}
+			m := gInt(rt, 1, 2, "selfban")
+			if has(m) {
+				p.Ops = append(p.Ops, wOp{K: "tick", N: gPick(rt, []int{600, 1500}, "idle")},
+					wOp{K: "sub", S: first[m], T: "g0", A: gPick(rt, []string{"RWP", "N", "RWP"}, "nojoin")}, wOp{K: "tick", N: 12000})
+			}
+		case y < 8:
+			// a P2P topic is created muted by one side while both sit on 'me'; later it is un-muted
+			// and the creator goes away and comes back
+			a, b := 2, 1
+			if has(3) {
+				a, b = 3, 0
+			}
+			if has(a) && has(b) {
+				p.Ops = append(p.Ops, wOp{K: "sub", S: first[a], T: "me", B: "sub"}, wOp{K: "sub", S: first[b], T: "me", B: "sub"},
+					wOp{K: "sub", S: first[a], T: fmt.Sprintf("p%d", b), A: "JRWA"},
+					wOp{K: "set", S: first[a], T: fmt.Sprintf("p%d", b), A: "mode", B: "JRWPA"}, wOp{K: "leave", S: first[a], T: fmt.Sprintf("p%d", b)})
+				for k, u := range p.Sess {
+					if u == a {
+						p.Ops = append(p.Ops, wOp{K: "disc", S: k})
+					}
+				}
+				p.Ops = append(p.Ops, wOp{K: "tick", N: 6000}, wOp{K: "reconn", S: first[a]}, wOp{K: "sub", S: first[a], T: "me", B: "sub"}, wOp{K: "tick", N: 600})
+			}
+		}
 		switch x := gInt(rt, 0, 99, "opk"); {
 		case x < 4 && p.Cfg.Root:
 			// the root session (user 0) attaches to the group on behalf of a member and goes away again
